@@ -62,7 +62,7 @@ claim("C07",
       "One inductive step over chain depth per reader, each solver-decided: with the parent an arbitrary byte array, the "
       "real VHDX (NOT_PRESENT / PARTIALLY_PRESENT with sector bitmap), VMDK sparse delta, HDS, VDI and QCOW2 (backing file of "
       "symbolic length) read paths return overlay(child, parent) with the parent addressed at the absolute guest offset; "
-      "_iter_partial_runs is checked as a unit on symbolic bitmaps. Parent *resolution* is not yet encoded (see notes).",
+      "_iter_partial_runs is checked as a unit on symbolic bitmaps. Parent resolution (vhdx.open_parent, VMDK descriptor parentCID/hint, HDD image search and snapshot chain) runs over a symbolic file system: the first existing candidate in the documented order is opened, a missing parent raises.",
       TRUST + "; the induction over chain depth is a written argument", "symbolic execution of the layered read paths + z3 "
       "equivalence against overlay oracles", "4.7")
 claim("C12",
@@ -104,8 +104,16 @@ claim("C20",
       "others skip the padded size) and that exactly the declared members are listed; witnesses are replayed on real tar bytes.",
       TRUST, "symbolic execution of vmtar.py with the stdlib tar iterator + z3", "4.20")
 
+claim("C09",
+      "Every entry point that takes a path runs over a symbolic file system (existence of every candidate path is a symbolic "
+      "boolean, so all combinations of present and missing files are explored); each open() mode and each path or handle "
+      "method is monitored: only read modes are allowed, except the single 'wb' open of the --output file of the decrypt "
+      "tool. The handle monitor (any attribute other than seek/read/tell is a violation) is active in every read harness.",
+      TRUST + "; the reached call sites are compared with a syntactic inventory only as a vacuity guard",
+      "symbolic execution over a symbolic file system with an open-mode/mutation monitor", "4.9")
+
 PENDING = "check not built yet in this round (planned: see DESIGN.md section 4)"
-for _p in ("C09", "C11", "C14", "C15", "C17"):
+for _p in ("C11", "C14", "C15", "C17"):
     NOT_APPLICABLE[_p] = PENDING
 NOT_APPLICABLE["C16"] = ("the property's content (cstruct writers, AES-GCM, PBKDF2) sits behind C boundaries that would have "
                          "to be stubbed; nothing of the repository's own arithmetic would remain to be decided (DESIGN 5)")
